@@ -25,11 +25,21 @@ FULL STATEMENT (not proved): for every class and every supported size (DESIGN.md
 everything except `Color666PlanarCode` L ≥ 3 and `Color666ToricCode` L ≥ 2 (6.6.6 colour codes
 have d² > n, so disjoint representatives cannot exist, and the enumeration below `d` is beyond
 the kernel).  `coverage_<Class>` pins how many instances of each table are certified, so a
-silently shrinking coverage breaks the build.  Missing for the full statement: all-sizes
-lattice arguments (unbounded in L).
+silently shrinking coverage breaks the build.  ALL SIZES (unbounded in L) are proved for seven
+hand-modelled codes: `Properties/C17Toric2DCode.lean` (`Lx, Ly ≥ 2`),
+`Properties/C17Planar2DCode.lean`, `Properties/C17RotatedPlanar2DCode.lean` (`Lx, Ly ≥ 1`):
+`IsDistance n H (min Lx Ly)`; `Properties/C17Toric3DCode.lean`, `Properties/C17XCubeCode.lean`
+(`Lx, Ly, Lz ≥ 2`): `IsDistance n H (min Lx (min Ly Lz))`; `Properties/C17Planar3DCode.lean`,
+`Properties/C17RotatedPlanar3DCode.lean` (`Lx, Ly, Lz ≥ 1`): `IsDistance n H (min Lx (Ly·Lz))` —
+and `code.d` equals that value for every lattice size, by packing with lattice translates; the
+same for every DEFORMED code of these classes, through the generic
+`distance_deformation_invariant` below (a per-qubit permutation of {X, Y, Z} changes neither the
+distance nor the reported distance of ANY code).  Missing for the full statement: the all-sizes
+statement for the other 9 classes.
 -/
 import PanqecVerif.Instances.DistAll
 import PanqecVerif.Proofs.Dist
+import PanqecVerif.Proofs.DistDeform
 
 namespace Panqec.C17
 open Panqec
@@ -52,6 +62,77 @@ theorem packing_bound {n k : Nat} {H Lx Lz : List (List Nat)}
       reps.Pairwise SuppDisjoint) :
     ∀ v, IsNontrivialLogical n H v → m ≤ pauliWeight v :=
   packing_lower_bound hv m hreps
+
+/-! ### Clifford deformation (`StabilizerCode.deform`, C08) does not change the distance
+
+`deform` replaces every row of `stabilizer_matrix`, `logicals_x`, `logicals_z` by its image under
+`deformBsf Ds` (C08 `matrices_deform`), `Ds` = the per-qubit relabellings `get_deformation`
+returns, each a permutation of {X, Y, Z} (`deformationTable_perm`, regenerated from the source).
+Quantifiers: every `n`, every such `Ds`, every stack of binary rows `H`. -/
+
+/-- a per-qubit permutation of {X, Y, Z} does not change the Pauli weight of an operator -/
+theorem weight_deformation_invariant {n : Nat} {Ds : List PauliMap} (hlen : Ds.length = n)
+    (hperm : ∀ D ∈ Ds, D.isPerm = true) {v : List Nat}
+    (hv : v.length = 2 * n) (hb : ∀ x ∈ v, x < 2) :
+    pauliWeight (deformBsf Ds v) = pauliWeight v :=
+  Deform.pauliWeight_deformBsf hlen hperm hv hb
+
+/-- `v` is a non-trivial logical operator of the generators `H` exactly when its image is a
+    non-trivial logical operator of the relabelled generators (commutation: C08
+    `symp_deformBsf`; span: `inSpan_deform` for the relabelling and for its inverse) -/
+theorem nontrivial_logical_deformation_iff {n : Nat} {Ds : List PauliMap} (hlen : Ds.length = n)
+    (hperm : ∀ D ∈ Ds, D.isPerm = true) {H : List (List Nat)} (hH : WFRows n H)
+    {v : List Nat} (hl : v.length = 2 * n) (hb : ∀ x ∈ v, x < 2) :
+    IsNontrivialLogical n (H.map (deformBsf Ds)) (deformBsf Ds v) ↔ IsNontrivialLogical n H v :=
+  Deform.nontrivial_deform_iff hlen hperm hH hl hb
+
+/-- … and every non-trivial logical operator of the relabelled generators is such an image -/
+theorem nontrivial_logical_deformation_surj {n : Nat} {Ds : List PauliMap} (hlen : Ds.length = n)
+    (hperm : ∀ D ∈ Ds, D.isPerm = true) {H : List (List Nat)} (hH : WFRows n H)
+    {w : List Nat} (h : IsNontrivialLogical n (H.map (deformBsf Ds)) w) :
+    ∃ v, IsNontrivialLogical n H v ∧ deformBsf Ds v = w :=
+  ⟨_, Deform.nontrivial_deform_inv hlen hperm hH h⟩
+
+/-- **The distance is invariant under Clifford deformation**: if `d` is the distance of the
+    code with generators `H` (binary rows of length `2n`), it is the distance of the code whose
+    generators are relabelled qubit by qubit by permutations of {X, Y, Z}. -/
+theorem distance_deformation_invariant {n d : Nat} {Ds : List PauliMap} (hlen : Ds.length = n)
+    (hperm : ∀ D ∈ Ds, D.isPerm = true) {H : List (List Nat)} (hH : WFRows n H)
+    (h : IsDistance n H d) : IsDistance n (H.map (deformBsf Ds)) d :=
+  Deform.isDistance_deform hlen hperm hH h
+
+/-- the same in both directions (the relabelling is a bijection) -/
+theorem distance_deformation_invariant_iff {n d : Nat} {Ds : List PauliMap} (hlen : Ds.length = n)
+    (hperm : ∀ D ∈ Ds, D.isPerm = true) {H : List (List Nat)} (hH : WFRows n H) :
+    IsDistance n (H.map (deformBsf Ds)) d ↔ IsDistance n H d :=
+  Deform.isDistance_deform_iff hlen hperm hH
+
+/-- **The reported distance is invariant**: `code.d` (minimum weight over the rows of
+    `logicals_x`, `logicals_z`) of the deformed code is that of the undeformed code. -/
+theorem reported_distance_deformation_invariant {n : Nat} {Ds : List PauliMap}
+    (hlen : Ds.length = n) (hperm : ∀ D ∈ Ds, D.isPerm = true) {Lx Lz : List (List Nat)}
+    (hX : WFRows n Lx) (hZ : WFRows n Lz) :
+    distance (Lx.map (deformBsf Ds)) (Lz.map (deformBsf Ds)) = distance Lx Lz :=
+  Deform.distance_deform hlen hperm hX hZ
+
+/-- Assembled for a hand-written lattice model `l` (valid `[[n, k]]` code of reported and true
+    distance `d`) and ANY assignment `D` of permutations of {X, Y, Z} to its qubits: the three
+    matrices computed from the deformed getters are the relabelled rows (no `KeyError`), they
+    form a valid `[[n, k]]` code, `code.d` is still `d` and `d` is still the true distance. -/
+theorem deformed_lattice_distance (l : Lattice) (hwf : l.WF) {n k d : Nat}
+    (hn : l.qubits.length = n) (hv : ValidCodeL n k l.rowsH l.rowsX l.rowsZ)
+    (hrep : distance l.rowsX l.rowsZ = some d) (hd : IsDistance n l.rowsH d)
+    (D : Coord → PauliMap) (hperm : ∀ q ∈ l.qubits, (D q).isPerm = true) :
+    stabilizerMatrix (l.toCodeData.deform D) =
+        some (l.rowsH.map (deformBsf (l.qubits.map D))) ∧
+    logicalsX (l.toCodeData.deform D) = some (l.rowsX.map (deformBsf (l.qubits.map D))) ∧
+    logicalsZ (l.toCodeData.deform D) = some (l.rowsZ.map (deformBsf (l.qubits.map D))) ∧
+    ValidCodeL n k (l.rowsH.map (deformBsf (l.qubits.map D)))
+      (l.rowsX.map (deformBsf (l.qubits.map D))) (l.rowsZ.map (deformBsf (l.qubits.map D))) ∧
+    distance (l.rowsX.map (deformBsf (l.qubits.map D)))
+      (l.rowsZ.map (deformBsf (l.qubits.map D))) = some d ∧
+    IsDistance n (l.rowsH.map (deformBsf (l.qubits.map D))) d :=
+  Lattice.deformed_distance l hwf hn hv hrep hd D hperm
 
 /-- Enumeration bound: if `checkExhaustive` accepts (every Pauli operator of weight `< d` is
     detected by a generator or commutes with every listed logical), every non-trivial logical
@@ -201,5 +282,18 @@ example : checkDistance code422 (.packing [0, 0, 0, 1, 0, 2, 0, 2]) = false := b
 /-- on the 3×3 toric code a claimed `d = 4` is refuted by the enumeration -/
 example : checkDistance { Generated.Toric2DCode.i3_3 with d := 4 } .exhaustive = false := by
   decide +kernel
+
+/-- deformation invariance instantiated: the `[[4,2,2]]` code relabelled by a Hadamard on
+    qubits 0 and 3 and `Y↔Z` on qubit 2 (generators `ZXXZ`, `XZYX`) still has distance 2, and the
+    weight-2 operator `XXII ↦ ZXII` is a non-trivial logical of it -/
+example : IsDistance 4 ((code422.stabs.map (unpackBits 8)).map
+    (deformBsf [.swapXZ, .id, .swapYZ, .swapXZ])) 2 :=
+  distance_deformation_invariant (n := 4) (Ds := [.swapXZ, .id, .swapYZ, .swapXZ]) rfl (by decide)
+    (by unfold WFRows; decide)
+    (checker_sound code422 cert422 .exhaustive (by decide) (by decide) (by decide))
+example : (code422.stabs.map (unpackBits 8)).map (deformBsf [.swapXZ, .id, .swapYZ, .swapXZ]) =
+    [[0,1,1,0, 1,0,0,1], [1,0,1,1, 0,1,1,0]] := by decide
+/-- the permutation hypothesis is needed: a map sending `Y` to `I` changes the weight of `Y` -/
+example : pauliWeight (deformBsf [⟨.X, .I, .Z⟩] [1, 1]) = 0 ∧ pauliWeight [1, 1] = 1 := by decide
 
 end Panqec.C17
